@@ -318,6 +318,29 @@ pub fn judge(case: &WbCase, notes: &mut WbNotes) -> Result<(), (String, String)>
     hammer_stop.store(true, Ordering::Relaxed);
     if let Some(h) = hammer {
         let _ = h.join();
+        // with a busy neighbour the loop above cannot wait for the queues (the neighbour keeps
+        // them non-empty) and says nothing about accepted deletes, whose only trace is a
+        // retirement: once the neighbour is quiet the queues must drain within the same bound
+        // before the durable image is judged
+        if verdict.is_ok() {
+            let t_quiet = Instant::now();
+            loop {
+                let snap = store.verif_snapshot();
+                let buffered: usize = snap.shard_pending.iter().sum();
+                if snap.retirements_pending == 0 && buffered == 0 {
+                    break;
+                }
+                let stall = Duration::from_millis(max_stall.load(Ordering::Relaxed) * 5);
+                if t_quiet.elapsed() > HARD + stall {
+                    verdict = Err((
+                        "write-behind-unbounded".into(),
+                        format!("{} s after the busy neighbour stopped (no explicit flush, max scheduling stall {} ms): {} retirements and {buffered} buffered entries still pending", t_quiet.elapsed().as_secs(), max_stall.load(Ordering::Relaxed), snap.retirements_pending),
+                    ));
+                    break;
+                }
+                std::thread::sleep(Duration::from_millis(20));
+            }
+        }
     }
     // sparse traffic: one write at a time, each must reach the device on its own (a shard that is
     // only drained as a side effect of its neighbours' traffic would stay pending here)
